@@ -10,6 +10,8 @@ import (
 	"sort"
 	"strconv"
 	"strings"
+	"time"
+	"verifmc/machine"
 
 	"verifmc/explore"
 )
@@ -21,10 +23,33 @@ type c24Case struct {
 	ROM    string `json:"rom"` // path relative to the repository's testdata
 	Sched  int    `json:"sched"`
 	Frames int    `json:"frames"`
+	// Stall: the second in-process run is held up by the host for 1.3 s of wall-clock time in the middle (between two
+	// frames): emulated time is counted in machine cycles, so a slow or stalled host must not change anything
+	Stall bool `json:"stall,omitempty"`
+}
+
+// guest program for an MBC3+TIMER cartridge: latches and reads the seconds register in a loop and sends every new
+// value to the serial port (so the cartridge clock's view of time is part of the observable output)
+var c24ClockROM = machine.ProgramCart(0x10, 0x03, map[uint16][]byte{0x100: {
+	0x3e, 0x0a, 0xea, 0x00, 0x00, 0x06, 0xff,
+	0xaf, 0xea, 0x00, 0x60, 0x3c, 0xea, 0x00, 0x60, 0x3e, 0x08, 0xea, 0x00, 0x40, 0xfa, 0x00, 0xa0, 0xb8, 0x28, 0xed, 0x47, 0xe0, 0x01, 0x18, 0xe8}})
+
+func c24ROMPath(c *Ctx, name string) string {
+	if name == "synthetic:mbc3-clock" {
+		p := filepath.Join(c.Scratch, "synthetic-mbc3-clock.gb")
+		if _, err := os.Stat(p); err != nil {
+			os.WriteFile(p, c24ClockROM, 0o644)
+		}
+		return p
+	}
+	if _, ok := c26Synthetic[name]; ok {
+		return c26ROMPath(c, name)
+	}
+	return filepath.Join(c.Repo, "gameboy/testdata", name)
 }
 
 // c24Run returns one hash per frame plus a final full-state hash.
-func c24Run(rom string, sched, frames int) (hs []uint64, err error) {
+func c24Run(rom string, sched, frames int, stallAt ...int) (hs []uint64, err error) {
 	defer func() {
 		if p := recover(); p != nil {
 			err = fmt.Errorf("crash: %v", p)
@@ -34,6 +59,9 @@ func c24Run(rom string, sched, frames int) (hs []uint64, err error) {
 	g.onFrame(func(n int, _ *image.RGBA) bool { return false })
 	ctx := context.Background()
 	for f := 0; f < frames; f++ {
+		if len(stallAt) > 0 && f == stallAt[0] {
+			time.Sleep(1300 * time.Millisecond)
+		}
 		g.applyButtons(btnSchedules[sched], f)
 		g.frame(ctx)
 		n, sh := g.drainHash()
@@ -65,7 +93,7 @@ func init() {
 
 func c24Check(c *Ctx) func(l *explore.Local, _ struct{}, cs c24Case) *explore.Fail {
 	return func(l *explore.Local, _ struct{}, cs c24Case) *explore.Fail {
-		rom := filepath.Join(c.Repo, "gameboy/testdata", cs.ROM)
+		rom := c24ROMPath(c, cs.ROM)
 		a, err := c24Run(rom, cs.Sched, cs.Frames)
 		if err != nil {
 			// a ROM the emulator cannot load or that executes an undefined opcode is not a determinism question
@@ -75,7 +103,11 @@ func c24Check(c *Ctx) func(l *explore.Local, _ struct{}, cs c24Case) *explore.Fa
 		// something else runs in between
 		other := filepath.Join(c.Repo, "gameboy/testdata/blargg/halt_bug.gb")
 		c24Run(other, (cs.Sched+1)%len(btnSchedules), 3)
-		b, err := c24Run(rom, cs.Sched, cs.Frames)
+		var stall []int
+		if cs.Stall {
+			stall = []int{cs.Frames / 3}
+		}
+		b, err := c24Run(rom, cs.Sched, cs.Frames, stall...)
 		if err != nil {
 			return explore.Failf("a run crashes although the same run completed before", "%s: %v", cs.ROM, err)
 		}
@@ -91,7 +123,11 @@ func c24Check(c *Ctx) func(l *explore.Local, _ struct{}, cs c24Case) *explore.Fa
 			}
 			return nil
 		}
-		if f := diff(a, b, "same process"); f != nil {
+		what := "same process"
+		if cs.Stall {
+			what = "same process, the second run stalled by the host for 1.3 s in the middle"
+		}
+		if f := diff(a, b, what); f != nil {
 			return f
 		}
 		out, err := exec.Command(c.SelfExe, "worker", "c24", rom, strconv.Itoa(cs.Sched), strconv.Itoa(cs.Frames)).Output()
@@ -135,7 +171,7 @@ func c24ROMs(repo string) []string {
 func init() {
 	register("C24", "exploration", func(c *Ctx) {
 		if c.R != nil {
-			c.R.Rule = "every non-empty ROM under testdata x fixed button schedules: the ROM is run through the real gameboy.New / runFrame with display, speakers and serial writer attached, twice in this process (with another ROM run in between) and once in a separate process; after every frame a hash of (registers, every writable memory region, ROM-window probes, frame pixels, drained samples, serial bytes, RTC and APU generator state) and at the end a hash of the full 64 KiB space and the cartridge RAM dump must agree between all three runs; a case = one (ROM, schedule); non-trivial = distinct final state hashes"
+			c.R.Rule = "every non-empty ROM under testdata x fixed button schedules: the ROM is run through the real gameboy.New / runFrame with display, speakers and serial writer attached, twice in this process (with another ROM run in between) and once in a separate process; after every frame a hash of (registers, every writable memory region, ROM-window probes, frame pixels, drained samples, serial bytes, RTC and APU generator state) and at the end a hash of the full 64 KiB space and the cartridge RAM dump must agree between all three runs; plus five synthetic guest programs, and three runs in which the host stalls the second run for 1.3 s of wall-clock time between two frames (emulated time is counted in machine cycles, so nothing may change); a case = one (ROM, schedule); non-trivial = distinct final state hashes"
 			c.R.Assumptions = []string{"differential replay: there is no nondeterministic choice inside the emulator to enumerate; the check demonstrates that rather than assuming it", "ROMs that the constructor rejects or that run into an undefined opcode are skipped"}
 		}
 		frames, scheds := 60, []int{0, 2}
@@ -147,9 +183,25 @@ func init() {
 			func(yield func(c24Case) bool) {
 				for _, r := range roms {
 					for _, s := range scheds {
-						if !yield(c24Case{r, s, frames}) {
+						if !yield(c24Case{ROM: r, Sched: s, Frames: frames}) {
 							return
 						}
+					}
+				}
+				// synthetic guest programs (cartridge clock reader; STOP; HALT forever; LCD and sound off; clock halted + DMA)
+				for _, r := range []string{"synthetic:mbc3-clock", "synthetic:stop", "synthetic:halt-forever", "synthetic:lcd-and-sound-off", "synthetic:rtc-halted-dma"} {
+					if !yield(c24Case{ROM: r, Sched: 0, Frames: frames}) {
+						return
+					}
+				}
+				// a stalled host: at least 70 frames, so that more than one emulated second passes
+				sf := frames
+				if sf < 70 {
+					sf = 70
+				}
+				for _, r := range []string{"synthetic:mbc3-clock", "rtc3test/rtc3test.gb", "blargg/instr_timing/instr_timing.gb"} {
+					if !yield(c24Case{ROM: r, Sched: 0, Frames: sf, Stall: true}) {
+						return
 					}
 				}
 			}, func() struct{} { return struct{}{} }, c24Check(c))
